@@ -313,5 +313,22 @@ fn main() {
             }
         }
     }
+
+    // v6 key packets with opaque material of a private algorithm (100), body lengths below, at and above 2^16: the v6
+    // fingerprint frames the body with a FOUR-octet length
+    for (tagname, tag) in [("primary", 6u8), ("subkey", 14u8)] {
+        for mlen in [10usize, 300, 65525, 65526, 65527, 70000] {
+            let material = hrng.bytes(mlen);
+            let mut body = vec![6u8, 0x65, 0x53, 0xf1, 0x00, 100];
+            body.extend((mlen as u32).to_be_bytes()); body.extend_from_slice(&material);
+            let mut pkt = vec![0xC0 | tag, 255]; pkt.extend((body.len() as u32).to_be_bytes()); pkt.extend_from_slice(&body);
+            let parsed = guarded(|| pgp::packet::PacketParser::new(&pkt[..]).next()).ok().flatten();
+            match parsed {
+                Some(Ok(pgp::packet::Packet::PublicKey(k))) => cx.key(&k, Some(&body), &format!("handmade-v6-opaque-{tagname}-{}", if body.len() >= 65536 { "64k" } else { "small" })),
+                Some(Ok(pgp::packet::Packet::PublicSubkey(k))) => cx.key(&k, Some(&body), &format!("handmade-v6-opaque-{tagname}-{}", if body.len() >= 65536 { "64k" } else { "small" })),
+                _ => cx.out.case("", &[], &["handmade-v6".into(), tagname.into(), mlen.to_string()], "not accepted", Some(true), "handmade-v6-opaque-not-accepted"),
+            }
+        }
+    }
     cx.out.finish();
 }
